@@ -1,7 +1,7 @@
 (* C15 - the modifier type-hint cache: in every reachable world an entry holds the annotation of the
    very class it is stored under, so loading a document type-checks as in a fresh process. *)
 From Coq Require Import NArith List Bool Arith Lia.
-From PS Require Import Base.Chars Base.Outcome Model.History Spec.Frame.
+From PS Require Import Base.Chars Base.Outcome Model.History Spec.Frame Proofs.History15P.
 Import ListNotations.
 Open Scope N_scope.
 
@@ -42,6 +42,7 @@ Proof. destruct o; reflexivity. Qed.
 Lemma apply_items_hints E : forall its w L r, w_hints (fst (apply_items E w L r its)) = w_hints w.
 Proof.
   induction its as [|[i it] its IH]; intros w L r; simpl; [reflexivity|].
+  destruct (is_post it); [apply IH|].
   pose proof (fetch_vals_hints E w i it (rd_owner w (w_owner w i)) r) as Hf.
   destruct (fetch_vals E w i it (rd_owner w (w_owner w i)) r) as [w0 vals]. simpl in Hf.
   destruct (is_res (item_step (rd_owner w (w_owner w i)) (rd_vars w (w_owner w i)) r it vals)) as [r'|e]; simpl.
@@ -57,7 +58,10 @@ Proof.
   destruct res as [r'|e]; simpl; [|exact Ha].
   pose proof (conv_conds_hints E (b_cls bk) (r_dets r') (finish_query E (b_cls bk) (ps_state (w_ps w3 L))) (r_conds r') w3) as Hc.
   destruct (conv_conds E (b_cls bk) (r_dets r') (finish_query E (b_cls bk) (ps_state (w_ps w3 L))) w3 (r_conds r')) as [w4 qs].
-  simpl in *. rewrite Hc. exact Ha.
+  simpl in Hc. destruct qs as [l|e|e]; simpl; try (rewrite Hc; exact Ha).
+  destruct (post_all_frame (pipe_pairs E (b_cls bk) (b_user bk) lfmt) L r' (map (finalize fmt (ps_state (w_ps w3 L)) r') l) w4) as [_ [_ Hp]].
+  destruct (post_all w4 L r' (map (finalize fmt (ps_state (w_ps w3 L)) r') l) (pipe_pairs E (b_cls bk) (b_user bk) lfmt)) as [w5 l'].
+  simpl in *. rewrite Hp, Hc. exact Ha.
 Qed.
 
 Lemma conv_rule_raw_hints E w b bk fmt r : w_hints (fst (conv_rule_raw E w b bk fmt r)) = w_hints w.
